@@ -1,4 +1,11 @@
 -- Root of the `GoRedisModel` library: importing every property module builds the whole development.
 import GoRedisModel.Properties.C01
 import GoRedisModel.Properties.C02
+import GoRedisModel.Properties.C03
+import GoRedisModel.Properties.C04
+import GoRedisModel.Properties.C05
 import GoRedisModel.Properties.C06
+import GoRedisModel.Properties.C07
+import GoRedisModel.Properties.C10
+import GoRedisModel.Properties.C11
+import GoRedisModel.Properties.C20
